@@ -54,9 +54,9 @@ def buildJ (b : Option Build) : Json :=
   | none => Json.null
   | some b => Json.arr #[Json.str b.script, optJ b.loc]
 
-def evJ (cwd : String) : Ev → Json
+def evJ (cwd home : String) : Ev → Json
   | .buildStart b dir env r => Json.arr #[Json.str "B", Json.str b.script, optJ b.loc, Json.str dir, envJ env, Json.num r]
-  | .buildEnd b res => Json.arr #[Json.str "E", Json.str b.script, optJ b.loc, Json.str (dirOf cwd b), Json.str (resStr res)]
+  | .buildEnd b res => Json.arr #[Json.str "E", Json.str b.script, optJ b.loc, Json.str (dirOf cwd home b), Json.str (resStr res)]
   | .start r => Json.arr #[Json.str "S", Json.num r]
   | .finish r => Json.arr #[Json.str "F", Json.num r]
 
@@ -84,14 +84,14 @@ def parseRuns (cwd : String) (j : Json) : Option (List Run) := do
   go rs.toList 0
 
 /-- results are keyed by (script, directory the script runs in) -/
-def parseResults (cwd : String) (j : Json) : Option (Build → BRes) := do
+def parseResults (cwd home : String) (j : Json) : Option (Build → BRes) := do
   let a ← getArr? j "results"
   let l ← a.toList.mapM (fun x => do
     let s ← getStr? x "script"
     let d ← getStr? x "dir"
     let r ← parseRes (← getStr? x "res")
     pure ((s, d), r))
-  pure (fun b => match l.find? (·.1 = (b.script, dirOf cwd b)) with | some p => p.2 | none => .ok)
+  pure (fun b => match l.find? (·.1 = (b.script, dirOf cwd home b)) with | some p => p.2 | none => .ok)
 
 /-- iterate a sequential scheduler until the work list is empty (bounded) -/
 def seqLoop (c : Cfg) (s : Sched) : Nat → List Nat → St → List Run → St × List Run × List Nat
@@ -117,13 +117,14 @@ def handle (op : String) (j : Json) : Option Json :=
   | "c13.session" => do
       let cwd ← getStr? j "cwd"
       let runs ← parseRuns cwd j
-      let res ← parseResults cwd j
+      let home ← getStr? j "home"
+      let res ← parseResults cwd home j
       let doB ← getBool? j "do_builds"
       let rep ← getBool? j "repaired"
       let sched ← parseSched (← getStr? j "sched")
       let choices ← (← getArr? j "choices").toList.mapM asNat?
       let cpu ← getNat? j "cpu"
-      let c : Cfg := { cwd := cwd, doBuilds := doB, res := res, oserrRaises := rep }
+      let c : Cfg := { cwd := cwd, home := home, doBuilds := doB, res := res, oserrRaises := rep }
       let total := (runs.map (fun r => r.inv + 2)).sum + 2
       if useParallel cpu runs then
         let locked ← getBool? j "locked"
@@ -146,7 +147,7 @@ def handle (op : String) (j : Json) : Option Json :=
             (ps', acc.2 ++ [enabled])) (ps0, [])
         pure (Json.mkObj [
           ("parallel", Json.bool true), ("threads", Json.num n),
-          ("events", Json.arr (ps.st.trace.map (evJ cwd)).toArray),
+          ("events", Json.arr (ps.st.trace.map (evJ cwd home)).toArray),
           ("runs", Json.arr (runs.map (runStatusJ ps.st)).toArray),
           ("left", Json.num (left.length + ps.remaining.length)),
           ("pcs", Json.arr (ps.workers.map (fun w => Json.str (pcStr w.pc))).toArray),
@@ -155,7 +156,7 @@ def handle (op : String) (j : Json) : Option Json :=
         let (st, left, _) := seqLoop c sched total choices {} runs
         pure (Json.mkObj [
           ("parallel", Json.bool false),
-          ("events", Json.arr (st.trace.map (evJ cwd)).toArray),
+          ("events", Json.arr (st.trace.map (evJ cwd home)).toArray),
           ("runs", Json.arr (runs.map (runStatusJ st)).toArray),
           ("left", Json.num left.length)])
   | "c13.setup" => do
